@@ -80,13 +80,14 @@ def one_case(rep, scn, k, kp, heights, tm):
     rp = {"scenario": scn, "k": k, "kp": kp}
     prev = 0.0
     try:
-        if scn.get("reuse"):
-            # the subgraph is re-used the way the models re-use it: arcs for another (larger) k first, destroyed, then the judged call.
-            # Everything starts afresh, the bound included.
-            sg.create_arcs(int(scn["reuse"]), *args)
-            sg.destroy_arcs()
-            prev = float(sg.density)
-        maxd = sg.create_arcs(k, *args)
+        with H.time_limit(120):
+            if scn.get("reuse"):
+                # the subgraph is re-used the way the models re-use it: arcs for another (larger) k first, destroyed, then the judged call.
+                # Everything starts afresh, the bound included.
+                sg.create_arcs(int(scn["reuse"]), *args)
+                sg.destroy_arcs()
+                prev = float(sg.density)
+            maxd = sg.create_arcs(k, *args)
     except Exception as ex:
         rep.violation(site, "create_arcs_raised", type(ex).__name__, dict(rp, exception=str(ex)[:200]))
         return None
@@ -106,7 +107,8 @@ def one_case(rep, scn, k, kp, heights, tm):
         sg.density = float(maxd[kp - 1])
         bound = float(sg.density)
     try:
-        sg.calculate_pdf(kp, *args)
+        with H.time_limit(120):
+            sg.calculate_pdf(kp, *args)
     except Exception as ex:
         rep.violation(site, "calculate_pdf_raised", type(ex).__name__, dict(rp, exception=str(ex)[:200]))
         return tr
